@@ -475,7 +475,8 @@ def run_c12(ck):
             pv = os.path.join(vlib.RUN, "C12_%s.v" % mod)
             vlib.write_if_changed(pv, txt)
             if rc8 != 0:
-                cb_res[mod] = (cbinfo, rc8, out8, dtq, "C08_" + mod)
+                # the callbacks / stop lemmas of C12_cbq / C12_cbs do not need C08: report their own failure if they have one
+                cb_res[mod] = (cbinfo, rcq, outq, dtq, nq) if rcq != 0 else (cbinfo, rc8, out8, dtq, "C08_" + mod)
                 return mod, info, rc8, out8, dt8, False
 
             def cbt():
